@@ -170,29 +170,52 @@ def run_shards(modname, specs, jobs, timeout):
         return results, errors, False
     ctx = mp.get_context("spawn")
     timed_out = False
-    ex = cf.ProcessPoolExecutor(max_workers=jobs, mp_context=ctx, initializer=_init_worker)
-    try:
-        futs = [ex.submit(_worker, modname, s) for s in specs]
-        deadline = time.time() + timeout
-        for f in futs:
-            left = deadline - time.time()
-            try:
-                r = f.result(timeout=max(0.1, left))
-            except cf.TimeoutError:
-                timed_out = True
-                break
-            except BaseException as e:  # broken pool etc.
-                errors.append({"harness_error": f"worker died: {e!r}"})
-                continue
-            (errors if "harness_error" in r else results).append(r)
-    finally:
-        if timed_out:
-            for p in list(getattr(ex, "_processes", {}).values()):
+    deadline = time.time() + timeout
+    died = []
+
+    def run_pool(batch, workers):
+        nonlocal timed_out
+        ex = cf.ProcessPoolExecutor(max_workers=workers, mp_context=ctx, initializer=_init_worker)
+        try:
+            futs = [(ex.submit(_worker, modname, s), s) for s in batch]
+            for f, s in futs:
+                left = deadline - time.time()
                 try:
-                    p.terminate()
-                except Exception:
-                    pass
-        ex.shutdown(wait=not timed_out, cancel_futures=True)
+                    r = f.result(timeout=max(0.1, left))
+                except cf.TimeoutError:
+                    timed_out = True
+                    break
+                except BaseException as e:  # a worker process died (a native crash inside a library): the pool is broken
+                    died.append((s, repr(e)))
+                    continue
+                (errors if "harness_error" in r else results).append(r)
+        finally:
+            if timed_out:
+                for p in list(getattr(ex, "_processes", {}).values()):
+                    try:
+                        p.terminate()
+                    except Exception:
+                        pass
+            ex.shutdown(wait=not timed_out, cancel_futures=True)
+
+    run_pool(specs, jobs)
+    # One dying worker breaks the whole pool: run the shards that were lost again, each in a pool of its own; a shard that kills its
+    # worker a second time is retried once with a shifted seed (the crashing case is a pure function of the seed) and counted.
+    for attempt in (1, 2):
+        if not died or timed_out:
+            break
+        again, died[:] = [s for s, _ in died], []
+        for s in again:
+            s = dict(s)
+            if attempt == 2:
+                s["seed"] = int(s.get("seed", 0)) + 1000003
+                s["reseeded_after_worker_death"] = True
+            n_before = len(results)
+            run_pool([s], 1)
+            if attempt == 2 and len(results) > n_before:
+                results[-1].setdefault("extra", {})["shards_reseeded_after_worker_death"] = 1
+    for s, why in died:
+        errors.append({"harness_error": f"worker died twice on shard {str({k: v for k, v in s.items() if k != 'payload'})[:300]}: {why}"})
     return results, errors, timed_out
 
 
@@ -408,13 +431,13 @@ def run_property(pid, tier, budget=1.0, jobs=0, use_known=True):
 
     print(f"{pid} tier={tier} seed={seed} evaluations={cov['evaluations']} distinct_nontrivial={dn} "
           f"violations={new_violations} attributed_known={sum(attributed.values())} wall={wall:.1f}s")
-    if exit_code == 1:
-        return 1
     if errors:
         for e in errors[:3]:
             print(e["harness_error"][-3000:])
         print(f"HARNESS-ERROR property={pid}: {len(errors)} shard(s) failed")
-        return 2
+        return 1 if exit_code == 1 else 2
+    if exit_code == 1:
+        return 1
     if timed_out:
         print(f"INCONCLUSIVE property={pid}: time budget exhausted before all shards finished")
         return 2
